@@ -57,6 +57,8 @@ type c10Scenario struct {
 	// output-dir in config.toml is a relative path; the working directory differs from the
 	// configuration directory
 	RelativeOutDir bool
+	// name of the output directory when not "out"
+	OutName string
 	// the uncrashed run must leave at least this many complete recordings in the output directory
 	WantComplete int
 	// that many finished recordings are already waiting in the output directory and in
@@ -178,6 +180,11 @@ func c10Scenarios() []c10Scenario {
 	out = append(out, s13)
 	s14 := c10Scenario{Name: "S14", What: "output-dir is a relative path and the working directory is not the configuration directory; one motion recording", Cfg: base(), Cam: cam, Frames: c10Frames(cam, "ffffmmmffffffffff"), RelativeOutDir: true, WantComplete: 1}
 	out = append(out, s14)
+	c15 := base()
+	c15.Constant = true
+	c15.MaxSecs = 2
+	s15 := c10Scenario{Name: "S15", What: "the output directory's name contains characters that mean something to file-name patterns ('[', ']', '*', '?'); constant recorder on, with a motion recording", Cfg: c15, Cam: cam, Frames: c10Frames(cam, "ffffmmmffffffffffffff"), OutName: "out [site 7] *?"}
+	out = append(out, s15)
 	c9 := base()
 	c9.Throttle, c9.BucketSize, c9.MinRefill = true, "3s", "200ms"
 	c9.MaxSecs = 30
@@ -282,6 +289,7 @@ func TestVerif_C10Child(t *testing.T) {
 	}
 	prepareSymlinkedOut = sc.SymlinkedDirs
 	prepareRelativeOut = sc.RelativeOutDir
+	prepareOutName = sc.OutName
 	r, err := prepareConn(root, sc.Cfg, sc.Cam)
 	if err != nil {
 		t.Fatal(err)
@@ -505,7 +513,7 @@ func TestVerif_C10(t *testing.T) {
 	defer c.Finish()
 	scratch := vEnv("VERIF_SCRATCH", t.TempDir())
 	scs := c10Scenarios()
-	quickSet := map[string]bool{"S1": true, "S3": true, "S4": true, "S5": true, "S6": true, "S8": true, "S10": true, "S11": true, "S12": true, "S13": true, "S14": true}
+	quickSet := map[string]bool{"S1": true, "S3": true, "S4": true, "S5": true, "S6": true, "S8": true, "S10": true, "S11": true, "S12": true, "S13": true, "S14": true, "S15": true}
 	for si, sc := range scs {
 		if !c.Thorough() && !quickSet[sc.Name] {
 			continue
